@@ -2,6 +2,8 @@
 From Coq Require Import String.
 From Cvg Require Import Base GoTypes Dump Options Front Builder Gen Sem.
 From Cvg.proofs Require Import BuilderProofs SemProofs.
+From Cvg Require Import GoLib GoFuns.
+From Cvg.proofs Require Import GenTieProofs.
 Open Scope N_scope.
 
 (** Placement: the body is  [dst = &T{}]  preprocess  assignments  postprocess  return. *)
@@ -65,3 +67,14 @@ Proof.
   - now apply negb_false_iff in E3.
 Qed.
 Print Assumptions C10_misfit_rejected.
+
+(** Tie to the source. [GoGen.FuncToString] is /repo's pkg/generator.FuncToString (with
+    AssignmentToString, ManipulatorToString, the String()/RetError() methods of the
+    assignment kinds, loopVars and Var.FullType), translated statement by statement into
+    gen/GoFuns.v on every run; [lower_function] is the record the builder hands over.  The
+    function text the theorems of this file speak about is therefore what the Go code
+    computes, for every function record. *)
+Theorem C10_text_is_what_the_go_code_prints :
+  forall f, GoGen.FuncToString (lower_function f) = func_to_string f.
+Proof. exact func_to_string_tie. Qed.
+Print Assumptions C10_text_is_what_the_go_code_prints.
